@@ -11,18 +11,18 @@ CHECKS = {
     "C01": ("B", "5 C01", "whole pipeline (Cucumber::custom + runner::Basic + writer zoo incl. Summarize/Libtest/Tee/Or/FailOnSkipped/Repeat) driven by the simulator; the verdict read by filter_run_and_exit, its panic and the libtest suite line are compared with a verdict computed from the raw event stream tapped between runner and writers"),
     "C02": ("A", "5 C02", "every attempt of every simulated run is compared with the sequential reference interpreter's canonical event list, under interleaving with other attempts and injected panics / World failures / undefined / ambiguous steps"),
     "C03": ("A", "5 C03", "framing invariants over the raw stream of every simulated run: lazy parser, parser errors, retries straddling bracket decisions, fail-fast closing half-run brackets"),
-    "C04": ("A", "5 C04", "set of started scenarios vs. what the simulated parser handed over; bounded liveness: the executor reports deadlock (lost wake-up), livelock, a spin inside one poll (idle_tick hook) or poll-cap overrun"),
+    "C04": ("A", "5 C04", "set of started scenarios vs. what the simulated parser handed over; bounded liveness: the executor reports deadlock (lost wake-up), livelock, a spin inside one poll (idle_tick hook) or poll-cap overrun; a quarter of the plans run under fail-fast (late features and delayed retries arriving after the trip)"),
     "C05": ("A", "5 C05", "per-scenario attempt chains checked for numbering, re-run-iff-failed-within-budget, non-overlap, fresh World and the retry delay in virtual time (events and user-callback stamps); other scenarios must keep running while a retry waits for its delay (quiescent-point work conservation); a panic escaping the runner is a lost retry"),
     "C06": ("A", "5 C06", "in-flight count on every prefix of the stream and over user-callback intervals; work conservation evaluated at quiescent points of the simulated executor after each completion"),
     "C07": ("A", "5 C07", "isolation window of every serial attempt checked against the event stream and the user-callback log, with serial scenarios becoming ready while others run (delayed retries, late features, simultaneous completions)"),
     "C08": ("A", "5 C08", "position of the first final failure vs. later dispatches: no attempt is handed to the executor (dispatch probe, hook H5, stamped with the virtual clock) once the failing attempt's Finished event exists; clean closing of brackets, parser-error cut-off, plus a fail-fast on/off differential on failure-free plans"),
-    "C09": ("A", "5 C09", "instrumented World (id, mutation counter, callback trail) and hooks: trails matched as a multiset against the attempts of the event stream, after-hook argument vs. modelled outcome"),
+    "C09": ("A", "5 C09", "instrumented World (id, mutation counter, callback trail) and hooks: trails matched as a multiset against the attempts of the event stream, after-hook argument vs. modelled outcome; attempts cut short by a panic escaping the runner owe their after hook"),
     "C10": ("A", "5 C10", "every injected fault carries a unique token that must surface in exactly one Failed event of the right kind with its payload; counting panic hook during the run and hook-restoration probe after it"),
     "C11": ("C", "5 C11", "real Normalize fed with synthetic contract-abiding histories from abstract concurrent emitters (incl. orders runner::Basic never produces), slow inner writer; losslessness, immediate forwarding, maximal progress after every call, final shape"),
-    "C12": ("C", "5 C12", "real Summarize (alone, inside/outside Repeat, inside FailOnSkipped, outside Normalize) fed with synthetic histories; all getters, steps/scenarios stats and the parsed summary text compared with an independent fold over the stream the inner writer received"),
-    "C13": ("C", "5 C13", "real FailOnSkipped / Repeat / Tee / Or and nestings fed with contract-abiding and arbitrary (shuffled, truncated, duplicated) streams; recording inner writers (independently slow on each side)"),
+    "C12": ("C", "5 C12", "real Summarize (alone, inside Repeat of failed / skipped / everything incl. run-Finished, inside FailOnSkipped, outside Normalize) fed with synthetic histories; all getters, steps/scenarios stats and the parsed summary text compared with an independent fold over the stream the inner writer received"),
+    "C13": ("C", "5 C13", "real FailOnSkipped / Repeat (built-in filters, a custom one, one selecting everything) / Tee / Or and nestings fed with contract-abiding and arbitrary (shuffled, truncated, duplicated) streams; recording inner writers (independently slow on each side)"),
     "C14": ("R", "5 C14", "the four real reporters behind the real Normalize, fed with synthetic contract-abiding histories (names with quotes, markup, backslashes, non-ASCII; path-less features; retries; hook failures; parser errors; reporter options) and writing into a sink with short writes and EINTR; the output is parsed back (line / JSON / XML readers) and the multiset of facts compared with the facts of the stream, plus libtest started/result pairing, totals and verdict; the plain writer's terminal mode (Coloring::Always) is run through a terminal emulator and the final screen must equal the non-terminal output; in the tracing build the histories carry Log events (Basic / JUnit system-out / JSON embeddings checked); same-named features (nested paths), rules and scenarios, position-less features"),
-    "C20": ("T", "5 C20", "real tracing integration (global subscriber, Collector, span-close handshake) with 1-8 scenarios logging concurrently before and after await points, retries, slow and failing callbacks; one simulated run per process; each emitted token (also from a logging World constructor, a nested user span, structured fields, bursts) must arrive exactly once as a Log event of the emitting attempt between the emitter's Started and result events; half of the runs poll the pipeline inside a span of the caller, a third have a writer that logs through tracing itself"),
+    "C20": ("T", "5 C20", "real tracing integration (global subscriber, Collector, span-close handshake) with 1-8 scenarios logging concurrently before and after await points, retries, slow and failing callbacks; one simulated run per process; each emitted token (also from a logging World constructor, a nested user span, structured fields, bursts) must arrive exactly once as a Log event of the emitting attempt between the emitter's Started and result events; half of the runs poll the pipeline inside a span of the caller, a third have a writer that logs through tracing itself; in half of the plans helpers outlive callbacks: they keep the callback's span open, log once more (on the simulator's thread or on a real helper OS thread run in strict hand-off) and only then let it close - the result event must wait for that"),
 }
 
 NOT_APPLICABLE = {
